@@ -25,9 +25,9 @@ def main():
             "around the core and at interactions of features: `_r3`; round 4, confined to the small files no earlier round had "
             "touched: `_r4`; round 5, by theme -- performance work, API evolution, plugins / interop: `_r5`; round 6, by theme -- "
             "numerical robustness, data-structure refactors, defensive programming: `_r6`; round 7, by theme -- value types, object "
-            "lifetime, control flow at the boundaries: `_r7`; rounds 8-25, asked for interactions of features, history dependence, "
+            "lifetime, control flow at the boundaries: `_r7`; rounds 8-26, asked for interactions of features, history dependence, "
             "aliasing, re-entrancy, scale, coincidences and Python's own semantics, with the tricks of all earlier rounds listed as "
-            "taken: `_r8` ... `_r25`); all pass the 76 existing "
+            "taken: `_r8` ... `_r26`); all pass the 76 existing "
             "tests. Results of `harness/promote.py` (quick tier of the property's own check); %d changes, %d detected, %d with "
             "a concrete failing input:\n\n| change | detected | how | first line of the report |\n|---|---|---|---|\n"
             % (len(rows), sum(1 for r in res.values() if r["detected"]), sum(1 for r in res.values() if r["concrete"])))
